@@ -28,6 +28,8 @@ class Cones:
         if self._site is None:
             self._site = {}
             for gn, g in self.prog["funcs"].items():
+                if g.get("ill"):
+                    continue
                 for i, it in enumerate(g["body"]):
                     if it["t"] == "keep":
                         self._site.setdefault(it["f"], (gn, i))
@@ -37,6 +39,8 @@ class Cones:
         """path -> ("data", fn) | ("keep", caller, index)"""
         out = {}
         for fn, f in self.prog["funcs"].items():
+            if f.get("ill"):
+                continue
             if f["kind"] == "data":
                 out[f["path"]] = ("data", fn)
             for i, it in enumerate(f["body"]):
